@@ -183,10 +183,11 @@ def _pyobj(name):
         "deque": lambda: _collections.deque(ints), "falsy": lambda: _FalsyIterable(ints), "empty-tuple": lambda: (),
         "empty-str": lambda: "", "genexp": lambda: (x for x in ints), "pairs-namedtuple": lambda: [_Pair(1, "a"), (2, "b"), _Pair(1, "c")],
         "bools": lambda: (True, False, True), "floats-tuple": lambda: (0.5, 1.5),
+        "strpairs": lambda: [("a", 1), ("z", 2), ("b", 3), ("a", 4)],
     }[name]()
 
 
-_PYOBJ_NAMES = ["tuple", "namedtuple", "revtuple", "duplist", "dict", "dictitems", "str", "bytes", "range", "frozenset", "deque",
+_PYOBJ_NAMES = ["strpairs", "tuple", "namedtuple", "revtuple", "duplist", "dict", "dictitems", "str", "bytes", "range", "frozenset", "deque",
                 "falsy", "empty-tuple", "empty-str", "genexp", "pairs-namedtuple", "bools", "floats-tuple"]
 _PYOBJ_TOOLS = ["all", "any", "sum", "min", "max", "list", "tuple", "set", "dict", "sorted", "reduce", "nlargest", "nsmallest"]
 
@@ -198,6 +199,19 @@ def _pyobj_cases():
                 continue    # dict(mapping) copies the mapping (CPython looks for .keys()); asyncstdlib.dict takes iterables of pairs only - documented
             yield {"tool": tool, "family": "pyobj", "input": name, "params": {}, "srcs": [{"kind": "list", "script": [["s", name]]}],
                    "fns": [], "cons": {"fin": "exhaust"}}
+    # keyword arguments of the Python-level signatures: dict(pairs, **kw) (kw after the pairs, overriding them), sorted/min/max
+    for name, kws in (("strpairs", [{"b": 9, "q": 0}, {"q": 0, "a": 7}, {"iterable": 5, "self": 6}]), ("empty-tuple", [{"b": 9, "a": 8}]),
+                      ("pairs-namedtuple", [{"x": 1}])):
+        for kw in kws:
+            yield {"tool": "dict", "family": "pyobj", "input": name, "kw": kw, "params": {}, "srcs": [{"kind": "list", "script": [["s", name]]}],
+                   "fns": [], "cons": {"fin": "exhaust"}}
+    for tool, kws in (("sorted", [{"reverse": True}, {"reverse": 0}, {"key": None}, {"key": None, "reverse": 1}]),
+                      ("min", [{"default": 7}, {"key": None}, {"key": None, "default": None}]), ("max", [{"default": 7}, {"key": None}]),
+                      ("sum", [{"start": 10}]), ("nlargest", [{"key": None}]), ("nsmallest", [{"key": None}])):
+        for name in ("tuple", "empty-tuple", "revtuple", "range", "falsy"):
+            for kw in kws:
+                yield {"tool": tool, "family": "pyobj", "input": name, "kw": kw, "params": {}, "srcs": [{"kind": "list", "script": [["s", name]]}],
+                       "fns": [], "cons": {"fin": "exhaust"}}
 
 
 def _deep(v):
@@ -216,11 +230,12 @@ def _observe_pyobj(case):
     from world import drive, exc_name
     tool, name = case["tool"], case["input"]
     extra = {"reduce": (operator.add,), "nlargest": (2,), "nsmallest": (2,)}.get(tool, ())
+    kw = case.get("kw") or {}
 
     def call(fn, obj, side):
         if tool in ("nlargest", "nsmallest"):      # heapq.nlargest(n, iterable) / asyncstdlib.nlargest(iterable, n)
-            return fn(obj, 2) if side == "async" else fn(2, obj)
-        return fn(extra[0], obj) if extra else fn(obj)
+            return fn(obj, 2, **kw) if side == "async" else fn(2, obj, **kw)
+        return fn(extra[0], obj) if extra else fn(obj, **kw)
     out = {}
     for side in ("async", "sync"):
         obj = _pyobj(name)
